@@ -34,13 +34,17 @@ if os.path.exists(rp):
 srows = ["| property | seeded change | origin | what it needs to manifest | result of `./check` (quick) |", "|---|---|---|---|---|"]
 n_total = n_caught = n_input = 0
 for d in sorted(glob.glob(os.path.join(V, "seeded", "*", "*"))):
-    if not os.path.exists(os.path.join(d, "patch.diff")): continue
+    superseded = os.path.exists(os.path.join(d, "patch.diff.superseded"))
+    if not os.path.exists(os.path.join(d, "patch.diff")) and not superseded: continue
     pid, name = d.split(os.sep)[-2:]
     meta = {}
     try: meta = json.load(open(os.path.join(d, "meta.json")))
     except Exception: pass
     r = res.get((pid, name))
-    if r is None: out = "not run yet"
+    if superseded:
+        r = None
+    if superseded: out = "superseded (no longer applies after a later repair): " + str(meta.get("status", ""))[:220].replace("|", "/")
+    elif r is None: out = "not run yet"
     elif "error" in r: out = "ERROR: " + r["error"][:60]
     else:
         parts = []
@@ -48,7 +52,7 @@ for d in sorted(glob.glob(os.path.join(V, "seeded", "*", "*"))):
             parts.append("%s: %s" % (ck, ("VIOLATION with failing input" if c.get("with_input") else "VIOLATION no-failing-input-found") if c["caught"] else "MISSED (exit %s)" % c["rc"]))
         out = "; ".join(parts)
         n_total += 1; n_caught += any(c["caught"] for c in r["checks"].values()); n_input += any(c.get("with_input") and c["caught"] for c in r["checks"].values())
-    origin = "independent sub-agent (property text only)" if name.startswith("indep") or pid == "C11" else ("reverse of a `fix:` commit" if name.startswith("revert") else "builder's own mutation")
+    origin = meta.get("origin") if isinstance(meta.get("origin"), str) and len(meta.get("origin")) < 120 else "independent sub-agent (property text only)" if name.startswith("indep") or pid == "C11" else ("reverse of a `fix:` commit" if name.startswith("revert") else "builder's own mutation")
     needs = str(meta.get("needs") or meta.get("needs_to_manifest") or meta.get("manifest") or meta.get("summary") or "")[:160].replace("|", "/").replace("\n", " ")
     srows.append("| %s | %s | %s | %s | %s |" % (pid, name, origin, needs, out))
 seeded = "%d kept seeded changes have a recorded run: %d caught, %d of them with a concrete failing input.\n\n" % (n_total, n_caught, n_input) + "\n".join(srows)
